@@ -46,6 +46,7 @@ type Obligation struct {
 	ClauseText string
 	ClauseExpr ast.Expr
 	NoFinding  bool
+	Group      string // vacuity guards of one clause on several paths: satisfiable on one of them is enough
 
 	// filled by the runner
 	Res SolveResult
@@ -271,6 +272,40 @@ func (e *Enc) cover(name string, cond T) {
 		o.Func = e.frames[0].name
 	}
 	e.obls = append(e.obls, o)
+}
+
+// coverAntecedent: vacuity guard behind an implication. "A ==> B" holds for
+// free where A is impossible, so A must be satisfiable at the point where the
+// clause is checked (an undecided guard is only noted).
+func (e *Enc) coverAntecedent(name string, env *Env, c Clause) {
+	if e.dry > 0 || e.noObl > 0 {
+		return
+	}
+	call, ok := c.Expr.(*ast.CallExpr)
+	if !ok || len(call.Args) != 2 {
+		return
+	}
+	id, ok := call.Fun.(*ast.Ident)
+	if !ok || id.Name != "implies" {
+		return
+	}
+	nerr := len(e.errs)
+	a := e.evalBool(env, Clause{Label: c.Label, Text: c.Text, Expr: call.Args[0], File: c.File, Line: c.Line})
+	if len(e.errs) > nerr {
+		e.errs = e.errs[:nerr]
+		return
+	}
+	if a.S == "true" {
+		return
+	}
+	e.cover(name+".antecedent", a)
+	if n := len(e.obls); n > 0 && e.obls[n-1].Kind == "cover" {
+		g := name
+		if i := strings.LastIndex(g, "@"); i >= 0 {
+			g = g[:i]
+		}
+		e.obls[n-1].Group = g
+	}
 }
 
 // ------------------------------------------------------------------ state vars
@@ -1268,6 +1303,21 @@ func (e *Enc) trackFailure(f *frame, call *ssa.Call, r Val) {
 	last := res.At(res.Len() - 1).Type()
 	if n, ok := last.(*types.Named); !ok || n.Obj().Name() != "error" || n.Obj().Pkg() != nil {
 		return
+	}
+	if f.con != nil && len(f.con.NoSwallowExcept) > 0 {
+		// "noswallow except f, g": errors of these callees are handled by
+		// design (retry loops, tolerated EOF / not-found)
+		name := ""
+		if sc := call.Common().StaticCallee(); sc != nil {
+			name = e.L.funcName(sc)
+		} else if call.Common().IsInvoke() {
+			name = typeKey(call.Common().Value.Type()) + "." + call.Common().Method.Name()
+		}
+		for _, x := range f.con.NoSwallowExcept {
+			if x == name {
+				return
+			}
+		}
 	}
 	var errv Val = r
 	if t, ok := r.(Tup); ok {
